@@ -2,7 +2,7 @@
 From Coq Require Import List ZArith Bool.
 From PV Require Import lib.Sx lib.Str lib.Result.
 From PV Require Import model.TextNodes model.TextRead.
-From PV Require Import spec.SpecTextXml spec.SpecTextLines spec.SpecTextRead extract.OrCommon extract.OrC03.
+From PV Require Import spec.SpecTextXml spec.SpecTextLines spec.SpecTextRead spec.SpecTextDfxpStr extract.OrCommon extract.OrC03.
 Import ListNotations.
 Open Scope Z_scope.
 
@@ -78,6 +78,16 @@ Definition req_read (arg : sx) : sx :=
   | _ => bad
   end.
 
+Definition sx_wline (x : sx) : option wline :=
+  match x with
+  | SL [SS w; tl] =>
+      match sx_listof (fun e => match e with SL [SS i; SS v] => Some (i, v) | _ => None end) tl with
+      | Some t => Some (w, t)
+      | None => None
+      end
+  | _ => None
+  end.
+
 Definition dispatch (code : Z) (arg : sx) : option sx :=
   match code with
   | 400 => Some (match arg with
@@ -119,6 +129,17 @@ Definition dispatch (code : Z) (arg : sx) : option sx :=
                  | SL [hd; bs] => match sx_strs hd, sx_listof sx_block bs with
                                   | Some h, Some b => of_strs (vtt_document_lines h b)
                                   | _, _ => bad end
+                 | _ => bad end)
+  (* 412 (wave 7): DFXP end to end on strings. arg = list of lines, a line = SL [SS first; SL [SL [SS indent; SS word]; ...]]
+     -> SL [rendered <p> content; shown lines; option (lines the model reads from the rendered string); all lines in the domain] *)
+  | 412 => Some (match sx_listof sx_wline arg with
+                 | Some ls => SL [SS (render_p ls); of_strs (map shown_line ls); of_opt of_strs (read_p (render_p ls));
+                                  of_bool (forallb line_ok ls)]
+                 | None => bad end)
+  | 413 => Some (match arg with
+                 | SL [a; o] => match sx_strs a, sx_strs o with
+                                | Some a, Some o => of_bool (ok_lines_a a o)
+                                | _, _ => bad end
                  | _ => bad end)
   | _ => None
   end.
